@@ -31,10 +31,13 @@ def snapshot_stream(tr, o):
     """the stream every matched item of the observation belongs to (None if inconsistent)"""
     if not o["m"]:
         return -1
-    for s, items in tr.items.items():
-        if all(idx < len(items) and str(items[idx]) == g for (_, idx), g in zip(o["m"], o["d"])):
-            return s
-    return None
+    cands = [s for s, items in tr.items.items()
+             if all(idx < len(items) and str(items[idx]) == g for (_, idx), g in zip(o["m"], o["d"]))]
+    if not cands:
+        return None
+    # data ids are unique within a history (the generator guarantees it), so there is normally one candidate; should
+    # two streams ever agree on all matched (index, data) pairs, prefer the current stream
+    return tr.stream if tr.stream in cands else max(cands)
 
 
 def c06(line, obs, sc, ln):
@@ -105,8 +108,23 @@ def c12(line, obs, sc, ln):
     # stream older than the one that restart created.  floor = (stream created by the latest restart(true), its event)
     floor = None
     kept = None
+    restarts = []     # events of the restarts so far
     for k, ev, ob, tr in walk(line, obs):
         p = ev.split(" ")
+        if p[0] == "restart":
+            restarts.append(k)
+        # the stream a restart creates has the CONFIGURED number of matcher columns: every fill callback (push / extend)
+        # and every item the snapshot hands out is checked by the harness against the 2 columns given to Nucleo::new
+        if p[0] == "st" and "!cols=" in ob:
+            ncol = ob[ob.index("!cols=") + 6:].split("!")[0]
+            start = next((e for e in line.split(";")[:k] if (e.startswith("push ") or e.startswith("ext ")) and e.split(" ")[1] == p[1]), "?")
+            sno = tr.pushes.get(p[1], {}).get("stream")
+            out.append(("columns", "the fill callback of %s (`%s`, completed at event %d) was handed %s matcher columns, the Nucleo was created with %d: stream %s %s does not have the configured column count" % (
+                "Injector::extend" if start.startswith("ext") else "Injector::push", start, k, ncol, ncommon.NCOLS, sno,
+                ("was created by the restart at event %d and" % restarts[sno - 1]) if sno and sno <= len(restarts) else "(the initial one)")))
+        if ob.startswith("O ") and ncommon.parse_obs(ob)["k"] != ncommon.NCOLS:
+            out.append(("columns", "the snapshot hands out items (get_matched_item / get_item) with %d matcher columns, the Nucleo was created with %d%s: %s" % (
+                ncommon.parse_obs(ob)["k"], ncommon.NCOLS, (" (%d restart(s) so far, the last at event %d: the stream it created does not have the configured column count)" % (len(restarts), restarts[-1])) if restarts else "", ob)))
         if p[0] == "restart" and p[1] == "1":
             floor = (tr.stream, k)
         if ob.startswith("O ") and floor is not None:
